@@ -185,7 +185,10 @@ fn verif_native_trap_output() {
     let dir = std::env::temp_dir().join(format!("lace-verif-trap-{}", std::process::id()));
     std::fs::create_dir_all(&dir).unwrap();
     // (source, stdin, the run's output with the banner lines removed must START with this text)
-    let cases: [(&str, &str, &str); 7] = [
+    let cases: [(&str, &str, &str); 9] = [
+        // an ESC printed by the program reaches stdout also in --minimal mode (which strips only lace's own colours)
+        ("ld r0, c\nout\nld r0, d\nout\nhalt\nc .fill x1B\nd .fill x41\n", "", "\x1bA"),
+        ("lea r0, s\nputs\nhalt\ns .fill x5B\n.fill x1B\n.fill x5D\n.fill x0\n", "", "[\x1b]"),
         ("ld r0, c\nout\nhalt\nc .fill x1241\n", "", "A"),
         ("lea r0, s\nputs\nhalt\ns .stringz \"Hi, é!\"\n", "", "Hi, "),
         ("lea r0, s\nputsp\nhalt\ns .fill x4241\n.fill x0043\n.fill x0\n", "", "ABC"),
